@@ -476,4 +476,437 @@ theorem groupIdx_eval (o : Order) (pt : Idx) (b : List (String × Arr Val)) :
           have eb := groupIdx_eval o pt b gs _ r hgb hrest (by omega) h2
           rw [List.map_append, ea, eb, groupSrc, List.map_append, hdrop]
 
+/-! ### the axis grouping is a partition into groups of equal product -/
+
+theorem prod_drop_take_succ (s : Shape) (k m d : Nat) (h : s[k]? = some d) :
+    prod ((s.drop k).take (m + 1)) = d * prod ((s.drop (k + 1)).take m) := by
+  have hk : k < s.length := by
+    rcases Nat.lt_or_ge k s.length with h' | h'
+    · exact h'
+    · rw [List.getElem?_eq_none h'] at h; cases h
+  have hd : s[k] = d := by
+    rw [List.getElem?_eq_getElem hk] at h; exact Option.some.inj h
+  rw [List.drop_eq_getElem_cons hk, List.take_succ_cons, prod, hd]
+
+/-- the inner loop extends both products until they agree -/
+theorem extendGroup_spec (old new : Shape) : ∀ (fuel op np oe ne oe' ne' : Nat),
+    extendGroup old new fuel op np oe ne = some (oe', ne') →
+    oe ≤ old.length → ne ≤ new.length →
+    oe ≤ oe' ∧ oe' ≤ old.length ∧ ne ≤ ne' ∧ ne' ≤ new.length ∧
+      op * prod ((old.drop oe).take (oe' - oe)) = np * prod ((new.drop ne).take (ne' - ne))
+  | 0, _, _, _, _, _, _, h, _, _ => by simp [extendGroup] at h
+  | fuel + 1, op, np, oe, ne, oe', ne', h, ho, hn => by
+    unfold extendGroup at h
+    by_cases heq : op = np
+    · rw [if_pos heq] at h
+      simp only [Option.some.injEq, Prod.mk.injEq] at h
+      obtain ⟨rfl, rfl⟩ := h
+      simp [heq, prod, ho, hn]
+    · rw [if_neg heq] at h
+      by_cases hlt : np < op
+      · rw [if_pos hlt] at h
+        cases hd : new[ne]? with
+        | none => rw [hd] at h; cases h
+        | some d =>
+          rw [hd] at h
+          simp only at h
+          have hne : ne < new.length := by
+            rcases Nat.lt_or_ge ne new.length with h' | h'
+            · exact h'
+            · rw [List.getElem?_eq_none h'] at hd; cases hd
+          obtain ⟨h1, h2, h3, h4, h5⟩ :=
+            extendGroup_spec old new fuel op (np * d) oe (ne + 1) oe' ne' h ho (by omega)
+          refine ⟨h1, h2, by omega, h4, ?_⟩
+          have e : ne' - ne = (ne' - (ne + 1)) + 1 := by omega
+          rw [e, prod_drop_take_succ new ne _ d hd, h5, Nat.mul_assoc]
+      · rw [if_neg hlt] at h
+        cases hd : old[oe]? with
+        | none => rw [hd] at h; cases h
+        | some d =>
+          rw [hd] at h
+          simp only at h
+          have hoe : oe < old.length := by
+            rcases Nat.lt_or_ge oe old.length with h' | h'
+            · exact h'
+            · rw [List.getElem?_eq_none h'] at hd; cases hd
+          obtain ⟨h1, h2, h3, h4, h5⟩ :=
+            extendGroup_spec old new fuel (op * d) np (oe + 1) ne oe' ne' h (by omega) hn
+          refine ⟨by omega, h2, h3, h4, ?_⟩
+          have e : oe' - oe = (oe' - (oe + 1)) + 1 := by omega
+          rw [e, prod_drop_take_succ old oe _ d hd, ← h5, Nat.mul_assoc]
+
+theorem drop_eq_cons_of_getElem? (s : Shape) (k d : Nat) (h : s[k]? = some d) :
+    s.drop k = d :: s.drop (k + 1) := by
+  have hk : k < s.length := by
+    rcases Nat.lt_or_ge k s.length with h' | h'
+    · exact h'
+    · rw [List.getElem?_eq_none h'] at h; cases h
+  have hd : s[k] = d := by
+    rw [List.getElem?_eq_getElem hk] at h; exact Option.some.inj h
+  rw [List.drop_eq_getElem_cons hk, hd]
+
+theorem lt_length_of_getElem? {s : Shape} {k d : Nat} (h : s[k]? = some d) : k < s.length := by
+  rcases Nat.lt_or_ge k s.length with h' | h'
+  · exact h'
+  · rw [List.getElem?_eq_none h'] at h; cases h
+
+/-- the two-pointer loop partitions both shapes into groups of equal product -/
+theorem groupsFrom_spec (old new : Shape) : ∀ (fuel oi ni : Nat) (gs : List Group),
+    groupsFrom old new fuel oi ni = some gs → oi ≤ old.length → ni ≤ new.length →
+    gs.flatMap (·.old) = old.drop oi ∧ gs.flatMap (·.new) = new.drop ni ∧
+      ∀ g ∈ gs, prod g.old = prod g.new ∧ (g.old = [] → g.new = [1])
+  | 0, _, _, _, h, _, _ => by simp [groupsFrom] at h
+  | fuel + 1, oi, ni, gs, h, ho, hn => by
+    unfold groupsFrom at h
+    cases hod : old[oi]? with
+    | none =>
+      cases hnd : new[ni]? with
+      | none =>
+        rw [hod, hnd] at h
+        simp only [Option.some.injEq] at h
+        subst h
+        have h1 : old.length ≤ oi := by simpa using hod
+        have h2 : new.length ≤ ni := by simpa using hnd
+        simp [List.drop_eq_nil_of_le h1, List.drop_eq_nil_of_le h2]
+      | some nd =>
+        rw [hod, hnd] at h
+        simp only at h
+        by_cases h1 : nd = 1
+        · rw [if_pos h1] at h
+          obtain ⟨gs', hgs', rfl⟩ := Option.map_eq_some_iff.mp h
+          have hlt := lt_length_of_getElem? hnd
+          obtain ⟨a, b, c⟩ := groupsFrom_spec old new fuel oi (ni + 1) gs' hgs' ho (by omega)
+          refine ⟨by simpa using a, ?_, ?_⟩
+          · rw [drop_eq_cons_of_getElem? new ni nd hnd]; simp [b]
+          · intro g hg
+            simp only [List.mem_cons] at hg
+            rcases hg with rfl | hg
+            · simp [prod, h1]
+            · exact c g hg
+        · rw [if_neg h1] at h; cases h
+    | some od =>
+      have hlto := lt_length_of_getElem? hod
+      cases hnd : new[ni]? with
+      | none =>
+        rw [hod, hnd] at h
+        simp only at h
+        by_cases h1 : od = 1
+        · rw [if_pos h1] at h
+          obtain ⟨gs', hgs', rfl⟩ := Option.map_eq_some_iff.mp h
+          obtain ⟨a, b, c⟩ := groupsFrom_spec old new fuel (oi + 1) ni gs' hgs' (by omega) hn
+          refine ⟨?_, by simpa using b, ?_⟩
+          · rw [drop_eq_cons_of_getElem? old oi od hod]; simp [a]
+          · intro g hg
+            simp only [List.mem_cons] at hg
+            rcases hg with rfl | hg
+            · simp [prod, h1]
+            · exact c g hg
+        · rw [if_neg h1] at h; cases h
+      | some nd =>
+        have hltn := lt_length_of_getElem? hnd
+        rw [hod, hnd] at h
+        simp only at h
+        by_cases h1 : od ≠ nd ∧ od = 1
+        · rw [if_pos h1] at h
+          obtain ⟨gs', hgs', rfl⟩ := Option.map_eq_some_iff.mp h
+          obtain ⟨a, b, c⟩ := groupsFrom_spec old new fuel (oi + 1) ni gs' hgs' (by omega) hn
+          refine ⟨?_, by simpa using b, ?_⟩
+          · rw [drop_eq_cons_of_getElem? old oi od hod]; simp [a]
+          · intro g hg
+            simp only [List.mem_cons] at hg
+            rcases hg with rfl | hg
+            · simp [prod, h1.2]
+            · exact c g hg
+        · rw [if_neg h1] at h
+          by_cases h2 : od ≠ nd ∧ nd = 1
+          · rw [if_pos h2] at h
+            obtain ⟨gs', hgs', rfl⟩ := Option.map_eq_some_iff.mp h
+            obtain ⟨a, b, c⟩ := groupsFrom_spec old new fuel oi (ni + 1) gs' hgs' ho (by omega)
+            refine ⟨by simpa using a, ?_, ?_⟩
+            · rw [drop_eq_cons_of_getElem? new ni nd hnd]; simp [b]
+            · intro g hg
+              simp only [List.mem_cons] at hg
+              rcases hg with rfl | hg
+              · simp [prod, h2.2]
+              · exact c g hg
+          · rw [if_neg h2] at h
+            cases he : extendGroup old new (old.length + new.length + 1) od nd (oi + 1) (ni + 1) with
+            | none => rw [he] at h; cases h
+            | some p =>
+              obtain ⟨oe, ne⟩ := p
+              rw [he] at h
+              simp only at h
+              obtain ⟨gs', hgs', rfl⟩ := Option.map_eq_some_iff.mp h
+              obtain ⟨e1, e2, e3, e4, e5⟩ :=
+                extendGroup_spec old new _ od nd (oi + 1) (ni + 1) oe ne he (by omega) (by omega)
+              obtain ⟨a, b, c⟩ := groupsFrom_spec old new fuel oe ne gs' hgs' e2 e4
+              have hdo : old.drop oe = (old.drop oi).drop (oe - oi) := by
+                rw [List.drop_drop]; congr 1; omega
+              have hdn : new.drop ne = (new.drop ni).drop (ne - ni) := by
+                rw [List.drop_drop]; congr 1; omega
+              refine ⟨?_, ?_, ?_⟩
+              · simp only [List.flatMap_cons, a, hdo, List.take_append_drop]
+              · simp only [List.flatMap_cons, b, hdn, List.take_append_drop]
+              · intro g hg
+                simp only [List.mem_cons] at hg
+                rcases hg with rfl | hg
+                · have eo : oe - oi = (oe - (oi + 1)) + 1 := by omega
+                  have en : ne - ni = (ne - (ni + 1)) + 1 := by omega
+                  simp only
+                  refine ⟨?_, ?_⟩
+                  · rw [eo, en, prod_drop_take_succ old oi _ od hod,
+                      prod_drop_take_succ new ni _ nd hnd, e5]
+                  · rw [eo, drop_eq_cons_of_getElem? old oi od hod]; simp
+                · exact c g hg
+
+theorem groups_valid (old new : Shape) (gs : List Group) (h : groups old new = some gs) :
+    gs.flatMap (·.old) = old ∧ gs.flatMap (·.new) = new ∧ ∀ g ∈ gs, prod g.old = prod g.new := by
+  obtain ⟨a, b, c⟩ := groupsFrom_spec old new _ 0 0 gs h (Nat.zero_le _) (Nat.zero_le _)
+  exact ⟨by simpa using a, by simpa using b, fun g hg => (c g hg).1⟩
+
+/-- `map_reshape` as a whole: any successful run of the (grouped) algorithm reads
+    the element `unravel old (ravel new i)` -/
+theorem reshape_eval (o : Order) (old new : Shape) (a : Arr Val) (i : Idx) (e : SExpr)
+    (ha : a.shape = old) (hprod : prod old = prod new) (hi : inB new i = true)
+    (hg : Lower.reshape o old new = some e) :
+    eval (idxEnv i [("_in0", a)]) e = a.get (unravel o old (ravel o new i)) := by
+  unfold Lower.reshape at hg
+  obtain ⟨ix, hix, rfl⟩ := Option.map_eq_some_iff.mp hg
+  unfold reshapeIdx at hix
+  simp only at hix
+  by_cases h0 : old = []
+  · rw [if_pos h0] at hix
+    by_cases h1 : prod new = 1
+    · rw [if_pos h1] at hix
+      cases hix
+      have hev : ([] : List SExpr).map (eval (idxEnv i [("_in0", a)]))
+          = ([] : Idx).map (fun x => Val.i (x : Nat)) := rfl
+      rw [eval_sub_of _ _ _ _ hev, lookupArr_head]
+      simp only [ha, h0]
+      cases o <;> simp [inB, unravel, unravelC, unravelF]
+    · rw [if_neg h1] at hix; cases hix
+  · rw [if_neg h0] at hix
+    by_cases h1 : new = []
+    · rw [if_pos h1] at hix
+      exact reshape1_eval o old new a i ix ha h0 hprod hi hix
+    · rw [if_neg h1] at hix
+      by_cases h2 : old.contains 0 = true ∧ new.contains 0 = true
+      · rw [if_pos h2] at hix
+        exact reshape1_eval o old new a i ix ha h0 hprod hi hix
+      · rw [if_neg h2] at hix
+        obtain ⟨gs, hgs, hgi⟩ := Option.bind_eq_some_iff.mp hix
+        obtain ⟨ho, hn, hp⟩ := groups_valid old new gs hgs
+        have hev := groupIdx_eval o i [("_in0", a)] gs 0 ix hgi hp (Nat.zero_le _)
+          (by rw [hn]; simpa using hi)
+        rw [List.drop_zero, groupSrc_eq o gs i hp (by rw [hn]; exact hi), ho, hn] at hev
+        subst ha
+        exact eval_sub_unravel o a i ix _ (hprod ▸ ravel_lt o new i hi) hev
+
+/-! ### the algorithm never gives up on shapes of equal size -/
+
+theorem mem_zero_of_prod_eq_zero : ∀ (s : Shape), prod s = 0 → 0 ∈ s
+  | [], h => by simp [prod] at h
+  | d :: ds, h => by
+    simp only [prod, Nat.mul_eq_zero] at h
+    rcases h with h | h
+    · simp [h]
+    · simp [mem_zero_of_prod_eq_zero ds h]
+
+theorem prod_drop_pos (s : Shape) (h : 0 < prod s) (k : Nat) : 0 < prod (s.drop k) := by
+  have := prod_take_mul_drop s k
+  exact Nat.pos_of_mul_pos_left (this ▸ h)
+
+theorem prod_drop_of_length_le (s : Shape) (k : Nat) (h : s.length ≤ k) : prod (s.drop k) = 1 := by
+  rw [List.drop_eq_nil_of_le h]; rfl
+
+theorem prod_drop_getElem (s : Shape) (k : Nat) (h : k < s.length) :
+    prod (s.drop k) = s[k] * prod (s.drop (k + 1)) := by
+  rw [List.drop_eq_getElem_cons h, prod]
+
+theorem genIdx_total (o : Order) (old new : Shape) (vars : List SExpr) (h : old ≠ []) :
+    ∃ ix, genIdx o old new vars = some ix := by
+  unfold genIdx
+  rw [if_neg h]
+  by_cases h2 : old = new
+  · rw [if_pos h2]; exact ⟨_, rfl⟩
+  · rw [if_neg h2]; exact ⟨_, rfl⟩
+
+theorem extendGroup_total (old new : Shape) : ∀ (fuel op np oe ne : Nat),
+    0 < op → 0 < np → 0 < prod (old.drop oe) → 0 < prod (new.drop ne) →
+    op * prod (old.drop oe) = np * prod (new.drop ne) →
+    (old.length - oe) + (new.length - ne) < fuel →
+    ∃ r, extendGroup old new fuel op np oe ne = some r
+  | 0, _, _, _, _, _, _, _, _, _, hf => by omega
+  | fuel + 1, op, np, oe, ne, hop, hnp, hpo, hpn, hinv, hf => by
+    unfold extendGroup
+    by_cases heq : op = np
+    · rw [if_pos heq]; exact ⟨_, rfl⟩
+    · rw [if_neg heq]
+      by_cases hlt : np < op
+      · rw [if_pos hlt]
+        have hne : ne < new.length := by
+          rcases Nat.lt_or_ge ne new.length with h' | h'
+          · exact h'
+          · exfalso
+            rw [prod_drop_of_length_le new ne h', Nat.mul_one] at hinv
+            have : op ≤ op * prod (old.drop oe) := Nat.le_mul_of_pos_right _ hpo
+            omega
+        rw [List.getElem?_eq_getElem hne]
+        simp only
+        have hsplit := prod_drop_getElem new ne hne
+        rw [hsplit] at hpn hinv
+        exact extendGroup_total old new fuel op (np * new[ne]) oe (ne + 1) hop
+          (Nat.mul_pos hnp (Nat.pos_of_mul_pos_right hpn)) hpo (Nat.pos_of_mul_pos_left hpn)
+          (by rw [hinv, Nat.mul_assoc]) (by omega)
+      · rw [if_neg hlt]
+        have hoe : oe < old.length := by
+          rcases Nat.lt_or_ge oe old.length with h' | h'
+          · exact h'
+          · exfalso
+            rw [prod_drop_of_length_le old oe h', Nat.mul_one] at hinv
+            have : np ≤ np * prod (new.drop ne) := Nat.le_mul_of_pos_right _ hpn
+            omega
+        rw [List.getElem?_eq_getElem hoe]
+        simp only
+        have hsplit := prod_drop_getElem old oe hoe
+        rw [hsplit] at hpo hinv
+        exact extendGroup_total old new fuel (op * old[oe]) np (oe + 1) ne
+          (Nat.mul_pos hop (Nat.pos_of_mul_pos_right hpo)) hnp (Nat.pos_of_mul_pos_left hpo) hpn
+          (by rw [← hinv, Nat.mul_assoc]) (by omega)
+
+theorem groupsFrom_total (old new : Shape) (hpo : 0 < prod old) (hpn : 0 < prod new) :
+    ∀ (fuel oi ni : Nat), prod (old.drop oi) = prod (new.drop ni) →
+    (old.length - oi) + (new.length - ni) < fuel → oi ≤ old.length → ni ≤ new.length →
+    ∃ gs, groupsFrom old new fuel oi ni = some gs
+  | 0, _, _, _, hf, _, _ => by omega
+  | fuel + 1, oi, ni, hinv, hf, ho, hn => by
+    unfold groupsFrom
+    have hdo := prod_drop_pos old hpo
+    have hdn := prod_drop_pos new hpn
+    rcases Nat.lt_or_ge oi old.length with hlo | hlo
+    · rw [List.getElem?_eq_getElem hlo]
+      have hso := prod_drop_getElem old oi hlo
+      rcases Nat.lt_or_ge ni new.length with hln | hln
+      · rw [List.getElem?_eq_getElem hln]
+        have hsn := prod_drop_getElem new ni hln
+        simp only
+        by_cases h1 : old[oi] ≠ new[ni] ∧ old[oi] = 1
+        · rw [if_pos h1]
+          obtain ⟨gs, hgs⟩ := groupsFrom_total old new hpo hpn fuel (oi + 1) ni
+            (by rw [← hinv, hso, h1.2, Nat.one_mul]) (by omega) (by omega) hn
+          exact ⟨_, by rw [hgs]; rfl⟩
+        · rw [if_neg h1]
+          by_cases h2 : old[oi] ≠ new[ni] ∧ new[ni] = 1
+          · rw [if_pos h2]
+            obtain ⟨gs, hgs⟩ := groupsFrom_total old new hpo hpn fuel oi (ni + 1)
+              (by rw [hinv, hsn, h2.2, Nat.one_mul]) (by omega) ho (by omega)
+            exact ⟨_, by rw [hgs]; rfl⟩
+          · rw [if_neg h2]
+            have hpo' := hdo oi
+            have hpn' := hdn ni
+            rw [hso] at hpo'
+            rw [hsn] at hpn'
+            obtain ⟨⟨oe, ne⟩, he⟩ := extendGroup_total old new (old.length + new.length + 1)
+              old[oi] new[ni] (oi + 1) (ni + 1) (Nat.pos_of_mul_pos_right hpo')
+              (Nat.pos_of_mul_pos_right hpn') (hdo _) (hdn _) (by rw [← hso, ← hsn, hinv]) (by omega)
+            rw [he]
+            simp only
+            obtain ⟨e1, e2, e3, e4, e5⟩ :=
+              extendGroup_spec old new _ _ _ (oi + 1) (ni + 1) oe ne he (by omega) (by omega)
+            -- the remaining products still agree
+            have hro : prod (old.drop (oi + 1))
+                = prod ((old.drop (oi + 1)).take (oe - (oi + 1))) * prod (old.drop oe) := by
+              rw [← prod_take_mul_drop (old.drop (oi + 1)) (oe - (oi + 1)), List.drop_drop]
+              congr 3; omega
+            have hrn : prod (new.drop (ni + 1))
+                = prod ((new.drop (ni + 1)).take (ne - (ni + 1))) * prod (new.drop ne) := by
+              rw [← prod_take_mul_drop (new.drop (ni + 1)) (ne - (ni + 1)), List.drop_drop]
+              congr 3; omega
+            have hinv' : prod (old.drop oe) = prod (new.drop ne) := by
+              have hG : 0 < old[oi] * prod ((old.drop (oi + 1)).take (oe - (oi + 1))) := by
+                rw [hro] at hpo'
+                rw [← Nat.mul_assoc] at hpo'
+                exact Nat.pos_of_mul_pos_right hpo'
+              apply Nat.eq_of_mul_eq_mul_left hG
+              calc old[oi] * prod ((old.drop (oi + 1)).take (oe - (oi + 1))) * prod (old.drop oe)
+                  = prod (old.drop oi) := by rw [hso, hro, Nat.mul_assoc]
+                _ = prod (new.drop ni) := hinv
+                _ = new[ni] * prod ((new.drop (ni + 1)).take (ne - (ni + 1))) * prod (new.drop ne) := by
+                    rw [hsn, hrn, Nat.mul_assoc]
+                _ = old[oi] * prod ((old.drop (oi + 1)).take (oe - (oi + 1))) * prod (new.drop ne) := by
+                    rw [e5]
+            obtain ⟨gs, hgs⟩ := groupsFrom_total old new hpo hpn fuel oe ne hinv' (by omega) e2 e4
+            exact ⟨_, by rw [hgs]; rfl⟩
+      · rw [List.getElem?_eq_none hln]
+        simp only
+        have h1 : old[oi] = 1 := by
+          rw [prod_drop_of_length_le new ni hln, hso] at hinv
+          exact Nat.eq_one_of_mul_eq_one_right hinv
+        rw [if_pos h1]
+        obtain ⟨gs, hgs⟩ := groupsFrom_total old new hpo hpn fuel (oi + 1) ni
+          (by rw [← hinv, hso, h1, Nat.one_mul]) (by omega) (by omega) hn
+        exact ⟨_, by rw [hgs]; rfl⟩
+    · rw [List.getElem?_eq_none hlo]
+      rcases Nat.lt_or_ge ni new.length with hln | hln
+      · rw [List.getElem?_eq_getElem hln]
+        have hsn := prod_drop_getElem new ni hln
+        simp only
+        have h1 : new[ni] = 1 := by
+          rw [prod_drop_of_length_le old oi hlo, hsn] at hinv
+          exact Nat.eq_one_of_mul_eq_one_right hinv.symm
+        rw [if_pos h1]
+        obtain ⟨gs, hgs⟩ := groupsFrom_total old new hpo hpn fuel oi (ni + 1)
+          (by rw [hinv, hsn, h1, Nat.one_mul]) (by omega) ho (by omega)
+        exact ⟨_, by rw [hgs]; rfl⟩
+      · rw [List.getElem?_eq_none hln]; exact ⟨_, rfl⟩
+
+theorem groupIdx_total (o : Order) : ∀ (gs : List Group) (v0 : Nat),
+    (∀ g ∈ gs, g.old = [] → g.new = [1]) → ∃ ix, groupIdx o gs v0 = some ix
+  | [], _, _ => ⟨_, rfl⟩
+  | g :: gs, v0, h => by
+    obtain ⟨r, hr⟩ := groupIdx_total o gs (v0 + g.new.length) (fun g' hg' => h g' (by simp [hg']))
+    unfold groupIdx
+    simp only
+    by_cases hold : g.old = []
+    · rw [if_pos hold, if_pos (h g (by simp) hold)]; exact ⟨r, hr⟩
+    · rw [if_neg hold]
+      obtain ⟨a, ha⟩ := genIdx_total o g.old g.new
+        ((List.range g.new.length).map fun k => ivar (v0 + k)) hold
+      rw [ha, hr]; exact ⟨_, rfl⟩
+
+/-- `map_reshape` produces an expression for every pair of shapes of equal size
+    (none of the Python `assert`s can fire) -/
+theorem reshape_total (o : Order) (old new : Shape) (hprod : prod old = prod new) :
+    ∃ e, Lower.reshape o old new = some e := by
+  suffices h : ∃ ix, reshapeIdx o old new = some ix by
+    obtain ⟨ix, hix⟩ := h
+    exact ⟨_, by rw [Lower.reshape, hix]; rfl⟩
+  unfold reshapeIdx
+  simp only
+  by_cases h0 : old = []
+  · rw [if_pos h0]
+    have : prod new = 1 := by rw [← hprod, h0]; rfl
+    rw [if_pos this]; exact ⟨_, rfl⟩
+  · rw [if_neg h0]
+    by_cases h1 : new = []
+    · rw [if_pos h1]; exact genIdx_total o old new _ h0
+    · rw [if_neg h1]
+      by_cases h2 : old.contains 0 = true ∧ new.contains 0 = true
+      · rw [if_pos h2]; exact genIdx_total o old new _ h0
+      · rw [if_neg h2]
+        have hpo : 0 < prod old := by
+          rcases Nat.eq_zero_or_pos (prod old) with hz | hp
+          · exfalso
+            apply h2
+            have h3 := mem_zero_of_prod_eq_zero old hz
+            have h4 := mem_zero_of_prod_eq_zero new (hprod ▸ hz)
+            simp [h3, h4]
+          · exact hp
+        obtain ⟨gs, hgs⟩ := groupsFrom_total old new hpo (hprod ▸ hpo)
+          (old.length + new.length + 1) 0 0 (by simpa using hprod) (by omega)
+          (Nat.zero_le _) (Nat.zero_le _)
+        obtain ⟨_, _, c⟩ := groupsFrom_spec old new _ 0 0 gs hgs (Nat.zero_le _) (Nat.zero_le _)
+        obtain ⟨ix, hix⟩ := groupIdx_total o gs 0 (fun g hg => (c g hg).2)
+        exact ⟨ix, by rw [groups, hgs]; exact hix⟩
+
 end Pt
